@@ -7,6 +7,7 @@
 import VModel.Engine
 import VModel.Graph
 import VModel.Generated.Relations
+import VModel.Column
 namespace V.Py
 open V V.Gen
 
@@ -34,6 +35,22 @@ structure Elem where
   isFQDA : Bool
   isGeom : Bool
   isIP : Bool
+  -- results of the element conversions the relations apply (computed on the real element by the harness)
+  lowerTF : Outcome (Option Bool)       -- `v.lower()`: "true" / "false" (which) | something else | raises
+  flo : Outcome FloatV                  -- `float(v)`
+  firstZero : Outcome Bool              -- `v[0] == "0"`
+  cplx : Outcome (FloatV × FloatV)      -- `complex(v)`
+  strp : Outcome Bool                   -- `datetime.strptime(v, "%Y-%m-%d %H:%M:%S")`: is the result a midnight?
+  url : Outcome Bool                    -- `urlparse(v)`: netloc and scheme both truthy
+  uuid : Outcome Unit                   -- `uuid.UUID(v)`
+  ip : Outcome Unit                     -- `ip_address(v)`
+  email : Outcome Bool                  -- `_to_email(v)`: local and fqdn both truthy
+  wkt : Outcome Bool                    -- `wkt.loads(v)`: truthiness
+  winAbs : Outcome Bool                 -- `PureWindowsPath(v).is_absolute()`
+  posixAbs : Outcome Bool               -- `PurePosixPath(v).is_absolute()`
+  fval : Option FloatV                  -- the value of a `float` element
+  cval : Option (FloatV × FloatV)       -- the value of a `complex` element
+  midnight : Outcome Bool               -- `v.time() == time(0, 0)` (datetimes)
   deriving DecidableEq, Repr, Inhabited
 
 abbrev Seq := List Elem
@@ -78,5 +95,232 @@ def listSucc (b : Built Ty) (n : Ty) : List (PRel Ty Seq) :=
     (fun e => { src := e.src, dst := e.dst, inferential := false, guard := fun s => containsL e.dst s, xform := id })
 
 def listDetect (b : Built Ty) (s : Seq) : List Ty := (ptraverse (listSucc b) 64 b.root s).2
+
+/-! ### the 14 inference relations of the python-sequence back end -/
+
+abbrev R := Except Err
+
+def isA (cls name : String) : Bool := (cls.splitOn "|").contains name
+def escape (cls : String) : Err :=
+  if isA cls "TypeError" then .dispatch ((cls.splitOn "|").headD cls) else .raised ((cls.splitOn "|").headD cls)
+def caught (names : List String) (cls : String) : Bool := names.any (isA cls)
+
+/-- Python's `all(f(v) for v in seq)`: stops at the first falsy value or the first exception -/
+def allO : List (Outcome Bool) → Outcome Bool
+  | [] => .ok true
+  | .raises c :: _ => .raises c
+  | .ok false :: _ => .ok false
+  | .ok true :: xs => allO xs
+/-- `tuple(map(f, seq))`: the first exception, if any -/
+def firstRaise {α : Type} : List (Outcome α) → Option String
+  | [] => none
+  | .raises c :: _ => some c
+  | .ok _ :: xs => firstRaise xs
+def oks {α : Type} : List (Outcome α) → List α
+  | [] => []
+  | .raises _ :: xs => oks xs
+  | .ok a :: xs => a :: oks xs
+
+/-- `try: <test> except (names): return False` -/
+def tryB (names : List String) (o : Outcome Bool) : R Bool :=
+  match o with
+  | .ok b => .ok b
+  | .raises c => if caught names c then .ok false else .error (escape c)
+
+def dropNone (s : Seq) : Seq := s.filter (fun x => !x.isNone)
+
+/-- elements the transformers produce -/
+def Elem.blank : Elem :=
+  { isNone := false, isBool := false, isInt := false, isFloat := false, isComplex := false, isNumber := false, nonNeg := false,
+    isStr := false, isDatetime := false, isDate := false, isTime := false, isTimedelta := false, isPurePath := false,
+    pathAbs := false, isPath := false, pathExists := false, pathImage := false, isParseResult := false, isUUID := false,
+    isFQDA := false, isGeom := false, isIP := false,
+    lowerTF := .raises "AttributeError", flo := .raises "TypeError", firstZero := .raises "TypeError", cplx := .raises "TypeError",
+    strp := .raises "TypeError", url := .raises "AttributeError", uuid := .raises "AttributeError", ip := .raises "ValueError",
+    email := .raises "AttributeError", wkt := .raises "TypeError", winAbs := .raises "TypeError", posixAbs := .raises "TypeError",
+    fval := none, cval := none, midnight := .raises "AttributeError" }
+def Elem.ofBool (b : Bool) : Elem :=
+  { Elem.blank with isBool := true, isInt := true, isNumber := true, nonNeg := true,
+                    flo := .ok (.fin (if b then 1 else 0) 0), cplx := .ok (.fin (if b then 1 else 0) 0, .fin 0 0) }
+def Elem.ofFloat (v : FloatV) : Elem :=
+  { Elem.blank with isFloat := true, isNumber := true, flo := .ok v, cplx := .ok (v, .fin 0 0), fval := some v }
+def Elem.ofComplex (re im : FloatV) : Elem :=
+  { Elem.blank with isComplex := true, isNumber := true, cplx := .ok (re, im), cval := some (re, im) }
+def Elem.ofInt (z : Int) : Elem :=
+  { Elem.blank with isInt := true, isNumber := true, nonNeg := decide (0 ≤ z), flo := .ok (.fin z 0), cplx := .ok (.fin z 0, .fin 0 0) }
+def Elem.ofDatetime (m : Bool) : Elem := { Elem.blank with isDatetime := true, isDate := true, midnight := .ok m }
+def Elem.ofDate : Elem := { Elem.blank with isDate := true }
+def Elem.ofUrl : Elem := { Elem.blank with isParseResult := true }
+def Elem.ofUUID : Elem := { Elem.blank with isUUID := true }
+def Elem.ofIP : Elem := { Elem.blank with isIP := true }
+def Elem.ofEmail : Elem := { Elem.blank with isFQDA := true }
+def Elem.ofGeom : Elem := { Elem.blank with isGeom := true }
+def Elem.ofPurePath (abs : Bool) : Elem := { Elem.blank with isPurePath := true, pathAbs := abs }
+
+/-- `int(v) == v` for a float value: OverflowError for infinities, ValueError for NaN -/
+def intEq (x : Elem) : Outcome Bool :=
+  match x.fval with
+  | some .nan => .raises "ValueError"
+  | some .pinf => .raises "OverflowError"
+  | some .ninf => .raises "OverflowError"
+  | some (.fin _ d) => .ok (d == 0)
+  | none => .raises "TypeError"
+def intOf (x : Elem) : Outcome Int :=
+  match x.fval with
+  | some (.fin n d) => .ok (n.tdiv ((2 : Int) ^ d))      -- `int()` truncates toward zero (the guard made it exact: d = 0)
+  | some .nan => .raises "ValueError"
+  | some _ => .raises "OverflowError"
+  | none => .raises "TypeError"
+
+/-- `no_leading_zeros(sequence, coerced)`: `not any(s[0] == "0" and c > 1 for s, c in zip(...))` -/
+def noLeadingZeros (s : Seq) (vals : List FloatV) : Outcome Bool :=
+  match allO ((s.zip vals).map (fun (x, v) => match x.firstZero with
+      | .raises c => .raises c
+      | .ok z => .ok (!(z && v.gtOne)))) with
+  | .ok b => .ok b
+  | .raises c => .raises c
+
+/-! guards -/
+
+/-- `is_bool` (Object -> Boolean): not empty, None dropped, all bools -/
+def objectIsBool : Seq → R Bool := fun s => .ok (isBoolSeq s)
+/-- `string_is_bool` under `sequence_handle_none` -/
+def stringIsBool (s : Seq) : R Bool :=
+  match allO ((dropNone s).map (fun x => match x.lowerTF with | .ok o => .ok o.isSome | .raises c => .raises c)) with
+  | .ok b => .ok b
+  | .raises c => .error (escape c)
+/-- `string_is_float`: every value parses (ValueError / TypeError -> False), then the leading-zero rule -/
+def stringIsFloat (s : Seq) : R Bool :=
+  match firstRaise (s.map (·.flo)) with
+  | some c => if caught ["ValueError", "TypeError"] c then .ok false else .error (escape c)
+  | none => tryB ["ValueError", "TypeError"] (noLeadingZeros s (oks (s.map (·.flo))))
+def stringIsComplex (s : Seq) : R Bool :=
+  match firstRaise (s.map (·.cplx)) with
+  | some c => if caught ["ValueError", "TypeError", "AttributeError"] c then .ok false else .error (escape c)
+  | none => tryB ["ValueError", "TypeError", "AttributeError"] (noLeadingZeros s ((oks (s.map (·.cplx))).map (·.1)))
+def stringIsDatetime (s : Seq) : R Bool :=
+  match firstRaise (s.map (·.strp)) with
+  | some c => if caught ["OverflowError", "TypeError", "ValueError"] c then .ok false else .error (escape c)
+  | none => .ok true
+def complexIsFloat (s : Seq) : R Bool :=
+  tryB ["ValueError"] (allO (s.map (fun x => match x.cval with | some (_, im) => .ok im.isZero | none => .raises "AttributeError")))
+def floatIsInt (s : Seq) : R Bool := tryB ["ValueError", "TypeError", "OverflowError"] (allO (s.map intEq))
+def datetimeIsDate (s : Seq) : R Bool :=
+  match allO (s.map (·.midnight)) with | .ok b => .ok b | .raises c => .error (escape c)
+def parses {α : Type} (names : List String) (f : Elem → Outcome α) (s : Seq) : R Bool :=
+  match firstRaise (s.map f) with
+  | some c => if caught names c then .ok false else .error (escape c)
+  | none => .ok true
+def stringIsUuid : Seq → R Bool := parses ["ValueError", "TypeError", "AttributeError"] (·.uuid)
+def stringIsIp : Seq → R Bool := parses ["ValueError", "TypeError", "AttributeError"] (·.ip)
+/-- all parse first (`tuple(map(...))`), then `all(netloc and scheme)` -/
+def allAfterParse (names : List String) (f : Elem → Outcome Bool) (s : Seq) : R Bool :=
+  match firstRaise (s.map f) with
+  | some c => if caught names c then .ok false else .error (escape c)
+  | none => .ok ((oks (s.map f)).all id)
+def stringIsUrl : Seq → R Bool := allAfterParse ["ValueError", "TypeError", "AttributeError"] (·.url)
+def stringIsEmail : Seq → R Bool := allAfterParse ["ValueError", "TypeError", "AttributeError"] (·.email)
+/-- `string_is_geometry`: `all(wkt.loads(v) for v in seq)` lazily, WKTReadingError / AttributeError / UnicodeEncodeError /
+TypeError caught -/
+def stringIsGeometry (s : Seq) : R Bool :=
+  -- (in the installed shapely `WKTReadingError` is an alias of `GEOSException`)
+  tryB ["WKTReadingError", "GEOSException", "AttributeError", "UnicodeEncodeError", "TypeError"] (allO (s.map (·.wkt)))
+/-- `string_is_path`: Windows paths if all absolute as such, else POSIX paths; `all(is_absolute)`; TypeError caught -/
+def usesWindows (s : Seq) : Outcome Bool :=
+  match firstRaise (s.map (·.winAbs)) with
+  | some c => .raises c
+  | none => .ok ((oks (s.map (·.winAbs))).all id)
+def stringIsPath (s : Seq) : R Bool :=
+  match usesWindows s with
+  | .raises c => if caught ["TypeError"] c then .ok false else .error (escape c)
+  | .ok true => .ok true
+  | .ok false =>
+    match firstRaise (s.map (·.posixAbs)) with
+    | some c => if caught ["TypeError"] c then .ok false else .error (escape c)
+    | none => .ok ((oks (s.map (·.posixAbs))).all id)
+
+/-! transformers -/
+
+def mapT {α : Type} (f : Elem → Outcome α) (g : α → Elem) (s : Seq) : R Seq :=
+  match firstRaise (s.map f) with
+  | some c => .error (escape c)
+  | none => .ok ((oks (s.map f)).map g)
+
+/-- `to_bool`: `tuple(map(bool, seq))` — only reached with bools (and None, which becomes False) -/
+def objectToBool (s : Seq) : R Seq := .ok (s.map (fun x => if x.isNone then Elem.ofBool false else x))
+/-- `string_to_bool`: `v.lower() == "true"` for strings, anything else unchanged -/
+def stringToBool (s : Seq) : R Seq :=
+  mapT (fun x => if x.isStr then (match x.lowerTF with | .ok o => .ok (Elem.ofBool (o == some true)) | .raises c => .raises c) else .ok x) id s
+def stringToFloat : Seq → R Seq := mapT (·.flo) Elem.ofFloat
+def stringToComplex : Seq → R Seq := mapT (·.cplx) (fun p => Elem.ofComplex p.1 p.2)
+def stringToDatetime : Seq → R Seq := mapT (·.strp) Elem.ofDatetime
+def complexToFloat : Seq → R Seq :=
+  mapT (fun x => match x.cval with | some (re, _) => .ok re | none => .raises "AttributeError") Elem.ofFloat
+def floatToInt : Seq → R Seq := mapT intOf Elem.ofInt
+def datetimeToDate : Seq → R Seq := mapT (fun x => if x.isDatetime then .ok () else .raises "AttributeError") (fun _ => Elem.ofDate)
+def stringToUuid : Seq → R Seq := mapT (·.uuid) (fun _ => Elem.ofUUID)
+def stringToIp : Seq → R Seq := mapT (·.ip) (fun _ => Elem.ofIP)
+def stringToUrl : Seq → R Seq := mapT (·.url) (fun _ => Elem.ofUrl)
+def stringToEmail : Seq → R Seq := mapT (·.email) (fun _ => Elem.ofEmail)
+def stringToGeometry : Seq → R Seq := mapT (·.wkt) (fun _ => Elem.ofGeom)
+def stringToPath (s : Seq) : R Seq :=
+  match usesWindows s with
+  | .raises c => .error (escape c)
+  | .ok true => mapT (·.winAbs) Elem.ofPurePath s
+  | .ok false => mapT (·.posixAbs) Elem.ofPurePath s
+
+def guardL (src dst : Ty) : Option (Seq → R Bool) :=
+  match src, dst with
+  | .Object, .Boolean => some objectIsBool
+  | .String, .Boolean => some stringIsBool
+  | .String, .Complex => some stringIsComplex
+  | .String, .DateTime => some stringIsDatetime
+  | .String, .Float => some stringIsFloat
+  | .Complex, .Float => some complexIsFloat
+  | .Float, .Integer => some floatIsInt
+  | .DateTime, .Date => some datetimeIsDate
+  | .String, .Geometry => some stringIsGeometry
+  | .String, .IPAddress => some stringIsIp
+  | .String, .Path => some stringIsPath
+  | .String, .URL => some stringIsUrl
+  | .String, .UUID => some stringIsUuid
+  | .String, .EmailAddress => some stringIsEmail
+  | _, _ => none
+
+def xformL (src dst : Ty) : Option (Seq → R Seq) :=
+  match src, dst with
+  | .Object, .Boolean => some objectToBool
+  | .String, .Boolean => some stringToBool
+  | .String, .Complex => some stringToComplex
+  | .String, .DateTime => some stringToDatetime
+  | .String, .Float => some stringToFloat
+  | .Complex, .Float => some complexToFloat
+  | .Float, .Integer => some floatToInt
+  | .DateTime, .Date => some datetimeToDate
+  | .String, .Geometry => some stringToGeometry
+  | .String, .IPAddress => some stringToIp
+  | .String, .Path => some stringToPath
+  | .String, .URL => some stringToUrl
+  | .String, .UUID => some stringToUuid
+  | .String, .EmailAddress => some stringToEmail
+  | _, _ => none
+
+/-- the engine relation of one edge of a built typeset over python sequences -/
+def mkRelL (e : Edge Ty) : Rel Ty Seq Unit :=
+  if e.inferential then
+    { src := e.src, dst := e.dst, inferential := true,
+      guard := fun c s => match guardL e.src e.dst with
+        | some g => (g c).map (fun v => (v, s))
+        | none => .error .notImplemented,
+      xform := fun c s => match xformL e.src e.dst with
+        | some t => (t c).map (fun v => (v, s))
+        | none => .ok (c, s) }
+  else
+    { src := e.src, dst := e.dst, inferential := false,
+      guard := fun c s => .ok (containsL e.dst c, s),
+      xform := fun c s => .ok (c, s) }
+
+def graphOfL (b : Built Ty) : Graph Ty Seq Unit :=
+  { succ := fun n => (b.edges.filter (fun e => e.src == n)).map mkRelL }
 
 end V.Py
